@@ -96,6 +96,16 @@ def run(ck, m):
                     out.append(bi)
         return out
     incs = calls_in_region({inc.id}, False)
+    # an extracted `count_new_selection(db, dbs)` that increments and then mirrors is an increment site (and a mirror site) of its own
+    for bi in region:
+        t = d.term(bi)
+        cb = P.bodies.get(callee(t)) if t['k'] == 'call' else None
+        if cb is not None and bi not in incs and cb.id in {h.id for h in P.private_helpers(d)}:
+            hi = [x for x, t2 in cb.calls() if callee(t2) == inc.id]
+            hm = [x for x, t2 in cb.calls() if callee(t2) == mirror.id]
+            hd = [x for x, t2 in cb.calls() if callee(t2) == dec.id]
+            if hi and hm and not hd and all(any(cb.postdominates(y, x) for y in hm) for x in hi) and all(cb.postdominates(x, 0) for x in hi):
+                incs.append(bi)
     decs = calls_in_region({dec.id})
     mirs = calls_in_region({mirror.id})
     for ev in sel:
